@@ -6,6 +6,8 @@
 // contract (parse_tag returns the tree whose encoding the value is).  Serves C19 (and C02 for construct_exop).
 use vstd::prelude::*;
 use vstd::string::*;
+use std::collections::HashSet;
+use vstd::std_specs::iter::IteratorSpec;
 verus! {
 
 //@include contracts/shared/lber_types.rs
@@ -434,6 +436,101 @@ pub open spec fn last_flag(k: Seq<StructureTag>, n: int) -> bool decreases n {
            &&& (match r.cookie { Some(c) => last_os(k, k.len() as int) == Some(c@), None => last_os(k, k.len() as int) is None }) //# C19.sync_done_cookie_as_sent_absent_is_none
            &&& r.refresh_deletes == last_flag(k, k.len() as int) //# C19.sync_done_refresh_deletes_default_false
         }),
+//@end
+
+
+// ---- SyncInfo (RFC 4533 2.5): IntermediateResponse [APPLICATION 25] { [0] responseName OID, [1] responseValue };
+// syncInfoValue ::= CHOICE { newcookie [0] syncCookie, refreshDelete [1] SEQUENCE { cookie OPTIONAL, refreshDone BOOLEAN
+// DEFAULT TRUE }, refreshPresent [2] (same), syncIdSet [3] SEQUENCE { cookie OPTIONAL, refreshDeletes BOOLEAN DEFAULT
+// FALSE, syncUUIDs SET OF syncUUID } }.  The cookie and the flag are under contract; the UUID set (HashSet collect) is not.
+//@const file=src/controls_impl/content_sync.rs name=SYNC_INFO_OID
+pub struct Control { pub x: u8 }
+pub struct ResultEntry(pub StructureTag, pub Vec<Control>);
+pub enum SyncInfo {
+    NewCookie(Vec<u8>),
+    RefreshDelete { cookie: Option<Vec<u8>>, refresh_done: bool },
+    RefreshPresent { cookie: Option<Vec<u8>>, refresh_done: bool },
+    SyncIdSet { cookie: Option<Vec<u8>>, refresh_deletes: bool, sync_uuids: HashSet<Vec<u8>> },
+}
+// idiom: `oid != SYNC_INFO_OID` (String vs &str comparison; recorded substitution)
+#[verifier::external_body]
+pub fn verif_str_ne(a: &String, b: &str) -> (r: bool) ensures r == (a@ != b@) { unimplemented!() }
+pub open spec fn is_u(c: StructureTag, id: u64) -> bool { c.class == TagClass::Universal && c.id == id }
+// components of the [1]/[2]/[3] sequences: cookie only first, flag among the first two, UUID set among the first three
+pub open spec fn wf_si_comp(c: StructureTag, j: int) -> bool {
+    (is_u(c, 4) && j == 0) || (is_u(c, 1) && j <= 1 && (c.payload matches PL::P(b) && b@.len() >= 1))
+    || (is_u(c, 17) && j <= 2 && (c.payload matches PL::C(us) && forall|i: int| 0 <= i < us@.len() ==> ((#[trigger] us@[i]).payload is P)))
+}
+pub open spec fn si_cookie(vk: Seq<StructureTag>, n: int) -> Option<Seq<u8>> {
+    if n >= 1 && is_u(vk[0], 4) { match vk[0].payload { PL::P(b) => Some(b@), PL::C(_) => None } } else { None }
+}
+pub open spec fn si_flag(vk: Seq<StructureTag>, n: int, dflt: bool) -> bool decreases n {
+    if n <= 0 { dflt } else if is_u(vk[n - 1], 1) && n <= 2 { vk[n - 1].payload->P_0@[0] != 0 } else { si_flag(vk, n - 1, dflt) }
+}
+pub open spec fn wf_si_value(v: StructureTag) -> bool {
+    v.class == TagClass::Context && v.id < 4 && (v.id == 0 ==> (v.payload is P))
+    && (v.id >= 1 ==> (v.payload matches PL::C(vk) && forall|j: int| 0 <= j < vk@.len() ==> wf_si_comp(#[trigger] vk@[j], j)))
+}
+pub open spec fn wf_si_entry(e: StructureTag) -> bool {
+    e.id == 25 && (e.payload matches PL::C(k) && exists|f: int| 0 <= f < k@.len() && #[trigger] si_first(k@, f))
+}
+// kids before f are the [0] OID (the Sync Info OID), kid f is the [1] value
+pub open spec fn si_first(k: Seq<StructureTag>, f: int) -> bool {
+    0 <= f < k.len() && k[f].id == 1 && (k[f].payload matches PL::P(vb) && (parse_spec(vb@) matches Some(v) && wf_si_value(v)))
+    && forall|j: int| 0 <= j < f ==> ((#[trigger] k[j]).id == 0 && (k[j].payload matches PL::P(ob) && valid_utf8(ob@) && utf8_decode(ob@) == "1.3.6.1.4.1.4203.1.9.1.4"@))
+}
+pub open spec fn si_f(k: Seq<StructureTag>) -> int { choose|f: int| 0 <= f < k.len() && #[trigger] si_first(k, f) }
+pub open spec fn si_value(k: Seq<StructureTag>, f: int) -> StructureTag { parse_spec(k[f].payload->P_0@)->0 }
+pub open spec fn si_val(e: ResultEntry) -> StructureTag { si_value(e.0.payload->C_0@, si_f(e.0.payload->C_0@)) }
+pub open spec fn si_vk(e: ResultEntry) -> Seq<StructureTag> { si_val(e).payload->C_0@ }
+pub open spec fn opt_view(o: Option<Vec<u8>>) -> Option<Seq<u8>> { match o { Some(v) => Some(v@), None => None } }
+//@lift name=parse_syncinfo file=src/controls_impl/content_sync.rs fn=parse_syncinfo
+//@ sub ".expect(\"octet string\").as_ref()" => ".expect(\"octet string\").as_slice()"
+//@ sub "let mut sync_cookie = None;" => "let mut sync_cookie: Option<Vec<u8>> = None;"
+//@ sub "if oid != SYNC_INFO_OID {" => "if verif_str_ne(&oid, SYNC_INFO_OID) {"
+//@ ret r
+//@ attr #[verifier::exec_allows_no_decreases_clause]
+//@ closure at="|t| t.expect_constructed()" params="t: StructureTag" ret="(o: Option<Vec<StructureTag>>)"
+            ensures o == (match t.payload { PL::P(_) => None::<Vec<StructureTag>>, PL::C(i) => Some(i) })
+//@ closure at="|u| {" params="u: StructureTag" ret="(o: Vec<u8>)"
+                                                        requires u.payload is P
+//@ insert entry
+    let ghost k = entry.0.payload->C_0@;
+    let ghost f = si_f(k);
+//@ loop 1
+        invariant
+            si_first(k, f), 0 <= f < k.len(), k == entry.0.payload->C_0@, f == si_f(k),
+            tags.remaining() == k.skip(k.len() - tags.remaining().len()),
+            0 <= k.len() - tags.remaining().len() <= f,
+//@ loop 2
+                                    invariant
+                                        1 <= id <= 3, id == sv.id, sv == si_value(k, f), k == entry.0.payload->C_0@, f == si_f(k), wf_si_value(sv), vk == sv.payload->C_0@,
+                                        syncinfo_val.remaining() == vk.skip(vk.len() - syncinfo_val.remaining().len()),
+                                        pass == vk.len() - syncinfo_val.remaining().len() + 1, vk.len() <= 3, syncinfo_val.remaining().len() <= vk.len(),
+                                        forall|j: int| 0 <= j < vk.len() ==> wf_si_comp(#[trigger] vk[j], j),
+                                        opt_view(sync_cookie) == si_cookie(vk, pass - 1),
+                                        flag == si_flag(vk, pass - 1, id != 3), //# C19.inv_syncinfo_flag_so_far_with_rfc4533_default
+                                    ensures
+                                        opt_view(sync_cookie) == si_cookie(vk, vk.len() as int),
+                                        flag == si_flag(vk, vk.len() as int, id != 3),
+//@ insert before "let mut syncinfo_val = match payload {"
+                                let ghost sv = si_value(k, f);
+                                let ghost vk = sv.payload->C_0@;
+                                proof { if vk.len() > 3 { assert(wf_si_comp(vk[3], 3)); } }
+//@ insert before "pass += 1;"
+                                    proof { assert(syncinfo_val.remaining() =~= vk.skip(pass as int)); }
+//@ insert before "match syncinfo_val.next() {"
+                                    proof { assert(syncinfo_val.remaining().len() > 0 ==> (wf_si_comp(vk[pass as int - 1], pass as int - 1) && syncinfo_val.remaining()[0] == vk[pass as int - 1])); }
+//@ spec
+    requires wf_si_entry(entry.0),
+    ensures
+        si_val(entry).id == 0 ==> (r matches SyncInfo::NewCookie(c) && c@ == si_val(entry).payload->P_0@), //# C19.syncinfo_new_cookie
+        si_val(entry).id == 1 ==> (r matches SyncInfo::RefreshDelete { cookie, refresh_done } && opt_view(cookie) == si_cookie(si_vk(entry), si_vk(entry).len() as int)
+            && refresh_done == si_flag(si_vk(entry), si_vk(entry).len() as int, true)), //# C19.syncinfo_refresh_delete_done_defaults_true
+        si_val(entry).id == 2 ==> (r matches SyncInfo::RefreshPresent { cookie, refresh_done } && opt_view(cookie) == si_cookie(si_vk(entry), si_vk(entry).len() as int)
+            && refresh_done == si_flag(si_vk(entry), si_vk(entry).len() as int, true)), //# C19.syncinfo_refresh_present_done_defaults_true
+        si_val(entry).id == 3 ==> (r matches SyncInfo::SyncIdSet { cookie, refresh_deletes, sync_uuids } && opt_view(cookie) == si_cookie(si_vk(entry), si_vk(entry).len() as int)
+            && refresh_deletes == si_flag(si_vk(entry), si_vk(entry).len() as int, false)), //# C19.syncinfo_id_set_refresh_deletes_defaults_false
 //@end
 
 // ---- PasswordModify response (RFC 3062): SEQUENCE { genPasswd [0] OCTET STRING OPTIONAL }
